@@ -107,6 +107,11 @@ def make_event(spec, dtype):
     if kind == "time":
         def ev(t, y):
             return s * (t - c)
+    elif kind == "timeoff":      # root of s*((t - c) + off) is not a floating point number when |off| < ulp(c)/2
+        off = spec["off"]
+
+        def ev(t, y):
+            return s * ((t - c) + off)
     elif kind == "state":
         def ev(t, y):
             return s * (y[comp] - c)
